@@ -7,9 +7,14 @@ Open Scope Z_scope.
 
 Section SimpleBlkProofs.
 Variable R : Type.
-Variables (rO rI : R) (radd rmul rsub : R -> R -> R) (ropp : R -> R).
+Variables (rO rI : R) (radd rmul rsub : R -> R -> R) (ropp : R -> R) (rdiv : R -> R -> R) (rinv : R -> R).
 Variable Rth : ring_theory rO rI radd rmul rsub ropp eq.
 Add Ring RringSB : Rth.
+(** the only fact about division that is used: a / b = a * inv b  (inv is any function; no field axiom is needed because the
+    quotient rule is stated with the same symbol) *)
+Hypothesis div_def : forall a b, rdiv a b = rmul a (rinv b).
+Hypothesis inv_l : forall a, a <> rO -> rmul (rinv a) a = rI.
+Hypothesis sq_nz : forall a, a <> rO -> rmul a a <> rO.
 Variable tiny : R -> bool.
 Hypothesis tiny_zero : forall x, tiny x = true -> x = rO.
 Infix "+r" := radd (at level 50, left associativity).
@@ -17,10 +22,10 @@ Infix "*r" := rmul (at level 40, left associativity).
 Notation sden := (sden R rO rI radd rmul).
 Notation bden := (bden R rO rI).
 Notation wf := (wf R).
-Notation accum := (accum R rI radd rmul rsub ropp tiny).
-Notation eval_ss := (eval_ss R radd rmul rsub ropp).
-Notation eval_td := (eval_td R radd rmul rsub ropp).
-Notation deriv := (deriv R rO rI radd rmul rsub ropp).
+Notation accum := (accum R rO rI radd rmul rsub ropp rdiv tiny).
+Notation eval_ss := (eval_ss R rI radd rmul rsub ropp rdiv).
+Notation eval_td := (eval_td R rI radd rmul rsub ropp rdiv).
+Notation deriv := (deriv R rO rI radd rmul rsub ropp rdiv).
 
 Let sden_cons' := sden_cons R rO rI radd rmul.
 Let sden_nil' := sden_nil R rO rI radd rmul.
@@ -87,15 +92,32 @@ Proof.
   apply G. intros ? ? [].
 Qed.
 
+(** every divisor has a non-zero steady-state value (otherwise the code raises ZeroDivisionError / returns inf) *)
+Fixpoint divs_ok (ss : nat -> R) (e : expr R) : Prop :=
+  match e with
+  | EVar _ | ENum _ => True
+  | EShift _ e | ESs e | ENeg e | EPow e _ => divs_ok ss e
+  | EAdd a b | ESub a b | EMul a b => divs_ok ss a /\ divs_ok ss b
+  | EDiv a b => divs_ok ss a /\ divs_ok ss b /\ eval_ss ss b <> rO
+  end.
+
+Lemma inv_sq d : d <> rO -> d *r rinv (d *r d) = rinv d.
+Proof.
+  intros Hd. pose proof (inv_l d Hd) as H1. pose proof (inv_l (d *r d) (sq_nz d Hd)) as H2.
+  transitivity (d *r rinv (d *r d) *r (rinv d *r d)); [rewrite H1; ring|].
+  transitivity ((rinv (d *r d) *r (d *r d)) *r rinv d); [ring | rewrite H2; ring].
+Qed.
+
 Definition aval_ok (ss : nat -> R) (x0 : nat) (e : expr R) (a : aval R) : Prop :=
   match a with
   | AConst c => eval_ss ss e = c /\ forall t s, deriv ss x0 s e t = rO
   | AAcc Sp f => eval_ss ss e = f /\ wf Sp /\ forall t s, 0 <= t -> 0 <= s -> deriv ss x0 s e t = sden Sp t s
   end.
 
-Theorem accum_correct ss x0 e : aval_ok ss x0 e (accum ss x0 e).
+Theorem accum_correct ss x0 e : divs_ok ss e -> aval_ok ss x0 e (accum ss x0 e).
 Proof.
-  induction e as [x|c|k e IH|e IH|e IH|a IHa b IHb|a IHa b IHb|a IHa b IHb]; cbn [SimpleBlk.accum].
+  induction e as [x|c|k e IH|e IH|e IH|a IHa b IHb|a IHa b IHb|a IHa b IHb|a IHa b IHb|a IHa n]; cbn [SimpleBlk.accum divs_ok]; intros Hok;
+    try (specialize (IH Hok)); try (destruct Hok as [Hoka Hokb]; specialize (IHa Hoka); try (destruct Hokb as [Hokb Hnz]); specialize (IHb Hokb)).
   - (* variable *)
     destruct (Nat.eqb x x0) eqn:Ex; cbn [aval_ok SimpleBlk.eval_ss SimpleBlk.deriv]; rewrite ?Ex.
     + split; [reflexivity|]. split; [intros k y [H|[]]; inversion H; cbn; lia|].
@@ -150,16 +172,42 @@ Proof.
       rewrite A3, B3, A1, B1, sden_add' by assumption.
       rewrite (sden_el_map (fun x => x *r f') S t s f') by (intros; ring).
       rewrite (sden_el_map (fun x => x *r f) S' t s f) by (intros; ring). ring.
+  - (* div *)
+    destruct (accum ss x0 a) as [c|S f], (accum ss x0 b) as [d|S' f']; cbn [aval_ok SimpleBlk.eval_ss SimpleBlk.deriv] in *.
+    + destruct IHa as [A1 A2], IHb as [B1 B2]. split; [rewrite A1, B1; reflexivity | intros; rewrite A2, B2, !div_def; ring].
+    + destruct IHa as [A1 A2], IHb as (B1 & B2 & B3). split; [rewrite A1, B1; reflexivity|]. split; [apply wf_el_map; assumption|].
+      intros t s Ht Hs. rewrite A2, B3, A1, B1 by assumption.
+      rewrite (sden_el_map (fun x => rdiv (ropp c) (f' *r f') *r x) S' t s (rdiv (ropp c) (f' *r f'))) by (intros; ring).
+      rewrite !div_def. ring.
+    + destruct IHa as (A1 & A2 & A3), IHb as [B1 B2]. split; [rewrite A1, B1; reflexivity|]. split; [apply wf_el_map; assumption|].
+      intros t s Ht Hs. rewrite A3, B2, A1, B1 by assumption.
+      rewrite (sden_el_map (fun x => rdiv x d) S t s (rinv d)) by (intros; rewrite div_def; ring).
+      rewrite !div_def. rewrite <- (inv_sq d) by (rewrite <- B1; assumption). ring.
+    + destruct IHa as (A1 & A2 & A3), IHb as (B1 & B2 & B3). split; [rewrite A1, B1; reflexivity|].
+      split; [apply wf_el_map; apply wf_sub_acc; apply wf_el_map; assumption|]. intros t s Ht Hs.
+      rewrite A3, B3, A1, B1 by assumption.
+      rewrite (sden_el_map (fun x => rdiv x (f' *r f')) _ t s (rinv (f' *r f'))) by (intros; rewrite div_def; ring).
+      rewrite sden_sub_acc.
+      rewrite (sden_el_map (fun x => f' *r x) S t s f') by (intros; ring).
+      rewrite (sden_el_map (fun x => f *r x) S' t s f) by (intros; ring).
+      rewrite !div_def. ring.
+  - (* pow *)
+    specialize (IHa Hok). destruct (accum ss x0 a) as [c|Sp f]; cbn [aval_ok SimpleBlk.eval_ss SimpleBlk.deriv] in *.
+    + destruct IHa as [A1 A2]. split; [rewrite A1; reflexivity | intros; rewrite A2; ring].
+    + destruct IHa as (A1 & A2 & A3). split; [rewrite A1; reflexivity|]. split; [apply wf_el_map; assumption|].
+      intros t s Ht Hs. rewrite A3, A1 by assumption.
+      rewrite (sden_el_map (fun x => nat_r R rO rI radd (Datatypes.S n) *r rpow R rI rmul f n *r x) Sp t s (nat_r R rO rI radd (Datatypes.S n) *r rpow R rI rmul f n)) by (intros; ring).
+      ring.
 Qed.
 
 (** an entry reported absent has derivative zero everywhere; a present entry is the derivative *)
-Theorem jac_entry_correct ss x0 e :
-  match jac_entry R rI radd rmul rsub ropp tiny ss x0 e with
+Theorem jac_entry_correct ss x0 e : divs_ok ss e ->
+  match jac_entry R rO rI radd rmul rsub ropp rdiv tiny ss x0 e with
   | None => forall t s, 0 <= t -> 0 <= s -> deriv ss x0 s e t = rO
   | Some Sp => wf Sp /\ forall t s, 0 <= t -> 0 <= s -> deriv ss x0 s e t = sden Sp t s
   end.
 Proof.
-  unfold jac_entry. pose proof (accum_correct ss x0 e) as H. destruct (accum ss x0 e) as [c|S f]; cbn [aval_ok] in H.
+  intros Hok. unfold jac_entry. pose proof (accum_correct ss x0 e Hok) as H. destruct (accum ss x0 e) as [c|S f]; cbn [aval_ok] in H.
   - intros; apply H.
   - destruct H as (H1 & H2 & H3). destruct (forallb (fun kx => tiny (snd kx)) S) eqn:Et; [|split; assumption].
     intros t s Ht Hs. rewrite H3 by assumption. rewrite forallb_forall in Et.
@@ -168,13 +216,13 @@ Proof.
     rewrite (tiny_zero x) by (apply (Et (k, x)); left; reflexivity). ring.
 Qed.
 
-Lemma eval_ssi_same ss e : eval_ssi R radd rmul rsub ropp ss ss e = eval_ss ss e.
+Lemma eval_ssi_same ss e : eval_ssi R rI radd rmul rsub ropp rdiv ss ss e = eval_ss ss e.
 Proof. induction e; cbn [SimpleBlk.eval_ssi SimpleBlk.eval_ss]; rewrite ?IHe, ?IHe1, ?IHe2; reflexivity. Qed.
 
 (** zero shock: on the steady-state path (same initial steady state) every output path is its steady-state value *)
 Theorem ss_td_agree T ss env e t : (forall x u, env x u = ss x) -> eval_td T ss ss env e t = eval_ss ss e.
 Proof.
-  intros Henv. revert t. induction e as [x|c|k e IH|e IH|e IH|a IHa b IHb|a IHa b IHb|a IHa b IHb]; intros t;
+  intros Henv. revert t. induction e as [x|c|k e IH|e IH|e IH|a IHa b IHb|a IHa b IHb|a IHa b IHb|a IHa b IHb|a IHa n]; intros t;
     cbn [SimpleBlk.eval_td SimpleBlk.eval_ss].
   - apply Henv.
   - reflexivity.
@@ -184,5 +232,7 @@ Proof.
   - rewrite IHa, IHb; reflexivity.
   - rewrite IHa, IHb; reflexivity.
   - rewrite IHa, IHb; reflexivity.
+  - rewrite IHa, IHb; reflexivity.
+  - rewrite IHa; reflexivity.
 Qed.
 End SimpleBlkProofs.
